@@ -67,6 +67,42 @@ def exc_origin(exc):
     return last or "harness"
 
 
+def has_real_order(t, _depth=0):
+    if not z3.is_app(t) or _depth > 40:
+        return False
+    if t.decl().kind() in (z3.Z3_OP_LE, z3.Z3_OP_LT, z3.Z3_OP_GE, z3.Z3_OP_GT) and t.children()[0].sort() == z3.RealSort():
+        return True
+    return z3.is_bool(t) and any(has_real_order(c, _depth + 1) for c in t.children())
+
+
+def _slack(t, rel, positive):
+    """strengthen the real-valued order atoms of a path condition by a relative slack (equalities, integer atoms and
+    anything unrecognised stay as they are); `positive` is the polarity of t"""
+    if not z3.is_bool(t) or not z3.is_app(t):
+        return t
+    k = t.decl().kind()
+    ch = t.children()
+    if k == z3.Z3_OP_NOT:
+        return z3.Not(_slack(ch[0], rel, not positive))
+    if k in (z3.Z3_OP_AND, z3.Z3_OP_OR):
+        parts = [_slack(c, rel, positive) for c in ch]
+        return z3.And(*parts) if k == z3.Z3_OP_AND else z3.Or(*parts)
+    if k in (z3.Z3_OP_LE, z3.Z3_OP_LT, z3.Z3_OP_GE, z3.Z3_OP_GT) and ch[0].sort() == z3.RealSort():
+        a, b = ch
+        if k in (z3.Z3_OP_GE, z3.Z3_OP_GT):
+            a, b = b, a          # a <= b  or  a < b
+        ab = lambda x: z3.If(x >= 0, x, -x)
+        sl = z3.RealVal(rel) * (ab(a) + ab(b))
+        if positive:
+            return a + sl < b    # holds with room to spare
+        return z3.Not(b + sl < a)  # the atom is false with room to spare: b < a by a margin
+    return t
+
+
+def robustify(assumptions, rel):
+    return [(_slack(a, rel, True) if zx.is_z(a) else a) for a in assumptions]
+
+
 class Obligations:
     def __init__(self, job, default_timeout_ms=60000):
         self.job = job
@@ -153,6 +189,10 @@ class Obligations:
                 # prefer a counterexample whose violation is large relative to the magnitude of the inputs, so that the
                 # replay can tell it from floating-point noise at any scale (the properties are scale-free)
                 m = self._refine(assumptions, neg, margin, budget) or m
+            else:
+                # prefer a counterexample that satisfies the path condition with room to spare: a model that sits exactly
+                # on a branch boundary takes the other branch when replayed in floating point
+                m = self._robust(assumptions, neg) or m
             data = None
             if cex is not None:
                 try:
@@ -163,6 +203,20 @@ class Obligations:
         else:
             self.inconclusive.append({"obligation": name, "reason": s.reason_unknown(), "solver_s": round(dt, 2)})
         return r
+
+    def _robust(self, assumptions, neg):
+        if not any(zx.is_z(a) and has_real_order(a) for a in assumptions):
+            return None
+        for rel in (1e-2, 1e-4, 1e-7):
+            s = self._solver(robustify(assumptions, rel), 5000)
+            s.add(neg)
+            try:
+                if s.check() == z3.sat:
+                    self.extra["robust_cex"] = self.extra.get("robust_cex", 0) + 1
+                    return s.model()
+            except Exception:
+                pass
+        return None
 
     def _refine(self, assumptions, neg, margin, budget):
         lhs, rhs, scaled, unit = margin
